@@ -108,6 +108,9 @@ def step (st : St) (ws : List String) : St × String :=
         (st'', withSpec ("done " ++ showAnswer (answer (some e))) ("done " ++ showAnswer (answer (Spec.get st.spec (hexOr k)))))
       | _ => (st', "parked")
     | none => ({ st with bad := true }, "disabled")
+  | ["failnext"] =>
+    -- fault injection of the harness (the next table write fails); nothing happens in the model until the task runs
+    if st.busy then (st, "reader-busy") else (st, "armed")
   | ["scanget", p] =>
     if st.busy then (st, "reader-busy") else
     ({ st with held := some (hexOr p, Rescale.scanR st.s (hexOr p)) }, "held")
@@ -137,6 +140,12 @@ def step (st : St) (ws : List String) : St × String :=
       match applyActs st [.flushBegin (natOr n)] with
       | some st' => (st', "flushbegin " ++ toString ((st'.s.flushing.getD []).length))
       | none => ({ st with bad := true }, "disabled " ++ n)
+    | ["flushfail", n] =>
+      -- the flush task took its snapshot of the sealed memtables and failed writing a table: `flushBegin`, `flushAbort`
+      match applyActs st [.flushBegin (natOr n), .flushAbort] with
+      | some st' => ({ st' with flushQ := st'.flushQ - 1 }, "flushfail " ++ n)
+      | none => ({ st with bad := true }, "disabled " ++ n)
+    | ["compactfail"] => ({ st with compactQ := st.compactQ - 1 }, "compactfail")
     | "flushcommit" :: n :: rest =>
       -- with a third hint word the implementation dumped the tables it appended to level 0: the model answers with
       -- its own flush snapshot (one table per sealed memtable, every entry with key, seq, marker, value)
